@@ -56,6 +56,16 @@ class WOut(Base):
     seq: jax.Array
     nonce: jax.Array
     h: jax.Array
+    vec: jax.Array  # uint32[3], a function of h (vec_of): a NON-scalar leaf, so that row-wise buffer handling is observable
+
+
+VEC_X = 0x5BD1E995
+
+
+def vec_of(h):
+    """numpy/python reference of the vector payload that belongs to hash h"""
+    h = int(h) & 0xFFFFFFFF
+    return [h, (h ^ VEC_X) & 0xFFFFFFFF, ((h >> 7) | 1) & 0xFFFFFFFF]
 
 
 def _bits(x):
@@ -75,7 +85,7 @@ def mix(a, b):
 
 
 HEADER = ["idx", "eps", "seq", "ts", "rng0", "rng1", "nonce", "st_h", "st_cnt", "out_h", "rng0_new", "rng1_new"]
-SLOT = ["seq", "ts_sent", "ts_recv", "d_src", "d_seq", "d_nonce", "d_h"]
+SLOT = ["seq", "ts_sent", "ts_recv", "d_src", "d_seq", "d_nonce", "d_h", "d_v0", "d_v1", "d_v2"]
 
 
 class Witness(BaseNode):
@@ -106,7 +116,7 @@ class Witness(BaseNode):
         return WState(h=U32(0), cnt=jnp.int32(0))
 
     def init_output(self, rng=None, graph_state=None):
-        return WOut(src=jnp.int32(self.idx), seq=jnp.int32(-1), nonce=jnp.int32(-1), h=U32(0))
+        return WOut(src=jnp.int32(self.idx), seq=jnp.int32(-1), nonce=jnp.int32(-1), h=U32(0), vec=jnp.zeros((3,), U32))
 
     def step(self, ss):
         rng, sub = jax.random.split(ss.rng)
@@ -127,14 +137,17 @@ class Witness(BaseNode):
                 h = mix(h, _u(i.data.seq[j]))
                 h = mix(h, _u(i.data.nonce[j]))
                 h = mix(h, _u(i.data.h[j]))
+                for q in range(3):
+                    h = mix(h, _u(i.data.vec[j][q]))
                 if self.hash_ts:
                     h = mix(h, _bits(i.ts_sent[j]))
                     h = mix(h, _bits(i.ts_recv[j]))
                 slots += [_u(sq), _bits(i.ts_sent[j]), _bits(i.ts_recv[j]), _u(i.data.src[j]), _u(i.data.seq[j]),
-                          _u(i.data.nonce[j]), _u(i.data.h[j])]
+                          _u(i.data.nonce[j]), _u(i.data.h[j]), _u(i.data.vec[j][0]), _u(i.data.vec[j][1]), _u(i.data.vec[j][2])]
         h = mix(h, _u(ss.state.h))
         new_state = WState(h=h, cnt=jnp.asarray(ss.state.cnt, jnp.int32) + 1)
-        out = WOut(src=jnp.int32(self.idx), seq=jnp.asarray(ss.seq, jnp.int32), nonce=jnp.asarray(ss.params.nonce, jnp.int32), h=h)
+        vec = jnp.stack([h, h ^ U32(VEC_X), (h >> 7) | U32(1)])
+        out = WOut(src=jnp.int32(self.idx), seq=jnp.asarray(ss.seq, jnp.int32), nonce=jnp.asarray(ss.params.nonce, jnp.int32), h=h, vec=vec)
         if self.trace == "io":
             rb = jnp.asarray(ss.rng).astype(U32).reshape(-1)
             rn = jnp.asarray(rng).astype(U32).reshape(-1)
@@ -163,7 +176,7 @@ def decode_trace(vecs, input_layout):
                 pos += len(SLOT)
                 rows.append(dict(
                     seq=int(onp.int32(s[0])), ts_sent=float(s[1:2].view(onp.float32)[0]), ts_recv=float(s[2:3].view(onp.float32)[0]),
-                    d_src=int(onp.int32(s[3])), d_seq=int(onp.int32(s[4])), d_nonce=int(onp.int32(s[5])), d_h=int(s[6])))
+                    d_src=int(onp.int32(s[3])), d_seq=int(onp.int32(s[4])), d_nonce=int(onp.int32(s[5])), d_h=int(s[6]), d_vec=[int(s[7]), int(s[8]), int(s[9])]))
             ins[name] = rows
         d["inputs"] = ins
         out.append(d)
